@@ -1,22 +1,57 @@
 """C17 — Loopless methods remove cycles without changing what matters."""
 from contracts import c15_dictlist, c17_cyclefree as C  # noqa
+from contracts import c17_loopless as CL
+from contracts import c17_addloopless as CA
 from props._generic import run_property, replay_with_driver
 
 LEVEL = "other"
 KEYS = ["_add_cycle_free", "Reaction.bounds@setter"]
+KEYS_SOLUTION = ["loopless_solution"]
+KEYS_MILP = ["add_loopless"]
+
+
+def _lemmas():
+    return C.lemmas() + CA.lemmas()
 
 
 def run(rep):
-    run_property(rep, KEYS, hooks=C.HOOKS, lemmas=C.lemmas, explanation=(
+    run_property(rep, KEYS, hooks=C.HOOKS, lemmas=_lemmas, more=[(KEYS_SOLUTION, CL.HOOKS), (KEYS_MILP, CA.HOOKS)], explanation=(
         "Deductive (kernel): loopless._add_cycle_free is proved, for models with any number of reactions (loop invariant over the "
         "reaction list) and every feasible finite starting flux vector, to give each boundary reaction bounds (v,v) and each internal "
         "reaction (max(0,lb), min(v,ub)) for v>=0 resp. (max(v,lb), min(0,ub)) for v<0 and to touch no other reaction; six glue lemmas "
         "(linear real arithmetic over extended-real bounds) derive from those bounds that no admissible flux reverses direction or "
-        "grows in magnitude, that the start stays admissible and that the new bounds lie within the old ones. The objective part of "
-        "_add_cycle_free, loopless_solution's constraint, add_loopless (MILP, SVD null space) and minimality are NOT proved: bounded "
-        "driver (ring models in all reversibility patterns against exact LP cycle-removal tests and brute-force sign patterns)."),
+        "grows in magnitude, that the start stays admissible and that the new bounds lie within the old ones. "
+        "loopless_solution ITSELF is proved as data flow, for both ways of giving the start (clauses from the docstring / the "
+        "CycleFreeFlux formulation): without fluxes the model is optimised exactly once, first, in its own direction, and the fluxes "
+        "and the objective value of THAT solution are the start; with fluxes the pinned value is c.v0 = the sum of c_r * fluxes[r.id] "
+        "over linear_reaction_coefficients(model) taken on the untouched model (assumed contract; the sum over the dictionary is an "
+        "uninterpreted finite sum of a summand that is characterised pointwise). Then: exactly ONE constraint "
+        "Constraint(objective expression at entry, lb = pin, ub = pin, name='loopless_obj_constraint') - an equality on the start's "
+        "value - is handed to model.add_cons_vars (not solver.add) while the function's own context is innermost; "
+        "_add_cycle_free(model, START fluxes) is called once in that context on the entry bounds (precondition discharged, proved "
+        "contract used), so the state in which the final optimize() is made has exactly the CycleFreeFlux bounds for every reaction; "
+        "the Solution returned is the one assembled from that final solve and its objective_value is the primal of the pinned "
+        "constraint read after it; the context is closed again on return and when a solve raises. "
+        "add_loopless is proved for any number of reactions (all bounds finite): the reactions treated are exactly the non-boundary "
+        "ones in model order (witness enumeration), M is the largest |bound| of the model (spec constant by axiom), the first "
+        "add_cons_vars call receives exactly [indicator_r (binary), on_off_r: -M <= flux_expression(r) - M*a <= 0, delta_g_r, "
+        "delta_g_range_r: 1 <= G + (M+1)*a <= M] per internal reaction, and for EVERY row k of nullspace(S[:, cols]).T (second loop "
+        "invariant) one constraint Constraint(Zero, lb=0, ub=0, name='nullspace_constraint_k') is added through add_cons_vars and "
+        "the constraint of that name gets set_linear_coefficients({variables['delta_g_' + id of the p-th internal reaction]: "
+        "row[p]}) for exactly the positions p with abs(row[p]) > zero_cutoff; a model without reactions raises ValueError; four "
+        "lemmas (a=1: 0<=v<=M, G<=-1; a=0: -M<=v<=0, G>=1; flux sign opposes delta-G sign; every flux within the bounds keeps an "
+        "indicator when M>=1 - for M<1 the delta_g range 1..M is empty). "
+        "NOT proved: that the optimum of the LP / MILP is loop-free and minimal, the objective _add_cycle_free installs, that "
+        "numpy.array(<list>) selects exactly the internal columns (opaque conversion), nullspace (SVD) and the adequacy of the "
+        "thresholding, normalize_cutoff's value, loopless_fva_iter, reverting on context exit (C03 / C13): bounded driver (ring "
+        "models in all reversibility patterns against exact LP cycle-removal tests and brute-force sign patterns)."),
         trusted=["Reaction.boundary (ghost flag), optlang objective calls (assumed)", "GLPK (assumed, monitored)",
-                 "numpy SVD null space and zero_cutoff thresholding in add_loopless"])
+                 "numpy SVD null space and zero_cutoff thresholding in add_loopless",
+                 "linear_reaction_coefficients (assumed contract: the model's reactions with a linear objective coefficient)",
+                 "Model.optimize at the call site = its C04 contract + the Solution get_solution assembles (fluxes keyed by all reaction ids)",
+                 "sum() over a dict enumeration = an uninterpreted finite sum SIGMA(key set, summand) (order independence: reals, no rounding)",
+                 "optlang / numpy / pandas constructors and operators as uninterpreted terms; model.add_cons_vars and "
+                 "Constraint.set_linear_coefficients as recorded calls; DictList.__getitem__(int) by its C15 contract as a term"])
 
 
 def replay(payload):
